@@ -33,6 +33,7 @@ type frame struct {
 	top      bool
 	text     map[ssa.Value]string
 	namedRes []*ssa.Alloc
+	heapLocals map[string]*LValue // named locals that live on the heap (address taken)
 }
 
 type retRec struct {
@@ -345,10 +346,12 @@ func (g *Gen) runBody(fr *frame, args []*Value, bindings []*Value, st *State) (*
 		}
 		results[k] = v
 	}
-	// drop this frame's cells
-	for c := range out.cells {
-		if c.Parent() == fn {
-			delete(out.cells, c)
+	// drop this frame's cells (the top frame keeps them: postconditions may name locals)
+	if !fr.top {
+		for c := range out.cells {
+			if c.Parent() == fn {
+				delete(out.cells, c)
+			}
 		}
 	}
 	return out, results
@@ -850,7 +853,7 @@ func (g *Gen) execInstr(fr *frame, st *State, in ssa.Instruction) {
 	switch i := in.(type) {
 	case *ssa.Alloc:
 		t := i.Type().(*types.Pointer).Elem()
-		if i.Heap {
+		if i.Heap && !privateLocal(i) {
 			o := g.newObject(st)
 			pv := &Value{T: i.Type(), L: []string{o}}
 			if at, ok := types.Unalias(t).Underlying().(*types.Array); ok && g.W.shapes.shape(t)[0].Kind != "arr" {
@@ -868,6 +871,13 @@ func (g *Gen) execInstr(fr *frame, st *State, in ssa.Instruction) {
 			lv := g.lvOf(fr, st, pv)
 			g.store(st, lv, g.zeroValue(t))
 			fr.regs[i] = pv
+			if i.Comment != "" && i.Comment != "new" && i.Comment != "complit" {
+				if fr.heapLocals == nil {
+					fr.heapLocals = map[string]*LValue{}
+				}
+				fr.heapLocals[i.Comment] = lv
+			}
+
 		} else {
 			st.cells[i] = g.zeroValue(t).L
 			if g.dry > 0 {
@@ -1322,8 +1332,12 @@ func (g *Gen) indexAddr(fr *frame, st *State, i *ssa.IndexAddr) {
 				fr.regs[i] = &Value{T: i.Type(), L: []string{"?arrelem"}, LV: &nlv}
 			}
 		} else {
-			g.errorf("%s: indexing array of non-scalar elements unsupported (%s)", funcKey(fr.fn), what)
-			fr.regs[i] = &Value{T: i.Type(), L: []string{"?elem"}, LV: &LValue{Kind: lvBox, Obj: g.fresh("o", sInt), Root: arr.Elem(), T: arr.Elem()}}
+			// array of composite elements stored inside a struct or cell: reads yield arbitrary values
+			// (the element is modelled as an unconstrained object); writes are not tracked
+			g.note("elements of arrays of structs embedded in structs read as arbitrary values: " + what)
+			o := g.fresh("anyelem", sInt)
+			g.addCons("(> " + o + " 0)")
+			fr.regs[i] = &Value{T: i.Type(), L: []string{"?elem"}, LV: &LValue{Kind: lvBox, Obj: o, Root: arr.Elem(), T: arr.Elem()}}
 		}
 	default:
 		g.errorf("%s: IndexAddr on %s", funcKey(fr.fn), i.X.Type())
@@ -1557,4 +1571,60 @@ func (g *Gen) setPhiConds(b *ssa.BasicBlock, edges []inEdge) {
 		conds[i] = smtOr(cs...)
 	}
 	g.phiConds[b] = conds
+}
+
+// privateLocal: a named local that lives on the heap only because closures of this function capture it
+// (it is never passed anywhere else), so no callee other than those closures can reach it.
+func privateLocal(a *ssa.Alloc) bool {
+	if !a.Heap || a.Comment == "" || a.Comment == "new" || a.Comment == "complit" || a.Referrers() == nil {
+		return false
+	}
+	if _, isArr := a.Type().(*types.Pointer).Elem().Underlying().(*types.Array); isArr {
+		return false
+	}
+	captured := false
+	for _, r := range *a.Referrers() {
+		switch x := r.(type) {
+		case *ssa.Store:
+			if x.Val == ssa.Value(a) {
+				return false
+			}
+		case *ssa.UnOp, *ssa.DebugRef, *ssa.FieldAddr:
+			if fa, ok := x.(*ssa.FieldAddr); ok {
+				// the address of a field must itself only be loaded/stored
+				if fa.Referrers() != nil {
+					for _, rr := range *fa.Referrers() {
+						switch rr.(type) {
+						case *ssa.Store, *ssa.UnOp, *ssa.DebugRef:
+						default:
+							return false
+						}
+					}
+				}
+			}
+		case *ssa.MakeClosure:
+			captured = true
+			// the closure must only be invoked directly (call or defer) by this function
+			if x.Referrers() != nil {
+				for _, rr := range *x.Referrers() {
+					switch c := rr.(type) {
+					case *ssa.Defer:
+						if c.Call.Value != ssa.Value(x) {
+							return false
+						}
+					case *ssa.Call:
+						if c.Call.Value != ssa.Value(x) {
+							return false
+						}
+					case *ssa.DebugRef:
+					default:
+						return false
+					}
+				}
+			}
+		default:
+			return false
+		}
+	}
+	return captured
 }
